@@ -44,6 +44,7 @@
 #define FUPDT_STEP_CHECK           1
 #define FUPDT_STEP_CHECKING        2
 #define FUPDT_STEP_DOWNLOADING     3
+#define FUPDT_STEP_FINISHED        4
 
 #define MAX_HTTP_HEADER_SIZE 700
 #define MAX_FLASH_ATTEMPTS     5
@@ -93,6 +94,9 @@ void ICACHE_FLASH_ATTR supla_esp_update_init(void) {
 
 void ICACHE_FLASH_ATTR
 supla_esp_update_reboot(char uf_finish) {
+
+	// system_restart() is asynchronous: nothing more is accepted from the connection
+	update_step = FUPDT_STEP_FINISHED;
 
 	if ( update->http_header_data != NULL ) {
 		free(update->http_header_data);
@@ -319,7 +323,7 @@ supla_esp_update_recv_cb (void *arg, char *pdata, unsigned short len) {
 	int a;
 	unsigned short body_offset = 0; // offset of the first body byte in pdata
 
-	if ( len == 0 )
+	if ( len == 0 || update_step == FUPDT_STEP_FINISHED )
 		return;
 
 	if ( update->http_header_matched == 0 ) {
@@ -451,6 +455,9 @@ supla_esp_update_recv_cb (void *arg, char *pdata, unsigned short len) {
 
 void ICACHE_FLASH_ATTR
 supla_esp_update_disconnect_cb(void *arg){
+
+	if ( update_step == FUPDT_STEP_FINISHED )
+		return;
 
 	if (  update_step != FUPDT_STEP_DOWNLOADING
 		  || update->downloaded_data_size != update->expected_file_size ) {
